@@ -24,6 +24,33 @@ pub struct GenMeta {
     pub ops: Vec<GenOp>,
     pub n_files: usize,
     pub location: String,
+    /// instance documents per WSDL operation name: {"request", "response", "mutations": [{name, position, find, replace}]}
+    pub instances: serde_json::Value,
+}
+
+/// (valid text, facet-violating text) for the facet kinds of `simple_type`
+fn facet_values(kind: u64) -> (&'static str, &'static str) {
+    match kind % 6 {
+        0 => ("abcd", "a"),
+        1 => ("abcd", "abcde"),
+        2 => ("north", "west"),
+        3 => ("5", "900"),
+        4 => ("0", "77"),
+        _ => ("abc", "abcdefghij"),
+    }
+}
+
+fn builtin_sample(ty: &str) -> &'static str {
+    match ty {
+        "xs:string" => "some text",
+        "xs:int" => "7",
+        "xs:long" => "7000000000",
+        "xs:boolean" => "true",
+        "xs:double" => "1.5",
+        "xs:unsignedShort" => "3",
+        "xs:dateTime" => "2020-01-01T00:00:00",
+        _ => "2",
+    }
 }
 
 fn simple_type(out: &mut String, prefix: &str, name: &str, kind: u64, doc: bool) {
@@ -60,6 +87,19 @@ pub fn gen_wsdl_set(ch: &mut Chooser, tag: u64) -> (InputSet, GenMeta) {
     gen_wsdl_set_opt(ch, tag, false)
 }
 
+/// NET profile: tame, and a message with header parts always names its body part (`parts=`), so that the emitted
+/// body is the request element the instance documents are written for.
+pub fn gen_wsdl_set_net(ch: &mut Chooser, tag: u64) -> (InputSet, GenMeta) {
+    NET_MODE.with(|m| m.set(true));
+    let r = gen_wsdl_set_opt(ch, tag, false);
+    NET_MODE.with(|m| m.set(false));
+    r
+}
+
+thread_local! {
+    static NET_MODE: std::cell::Cell<bool> = const { std::cell::Cell::new(false) };
+}
+
 /// Namespace URL for word `w`: in the tame profile always the same; in the wild profile one of several URLs that
 /// all abbreviate to the same three letters, so that the same URL gets different abbreviations in different sets.
 fn ns_url(ch: &mut Chooser, w: &str, wild: bool) -> String {
@@ -89,6 +129,7 @@ pub fn gen_wsdl_set_opt(ch: &mut Chooser, tag: u64, wild: bool) -> (InputSet, Ge
     for i in 1..n_files {
         xsd_ns.push(ns_url(ch, NS_WORDS[i], wild));
     }
+    let mut xsd_kind = vec![0u64; n_files];
     for i in 1..n_files {
         let ns = &xsd_ns[i - 1];
         let p = &NS_WORDS[i][..1];
@@ -108,7 +149,8 @@ pub fn gen_wsdl_set_opt(ch: &mut Chooser, tag: u64, wild: bool) -> (InputSet, Ge
             c[..1].make_ascii_uppercase();
             c
         };
-        simple_type(&mut s, p, &format!("{cap}Code"), ch.choose("gen_facet", 6), ch.choose("gen_doc", 2) == 1);
+        xsd_kind[i] = ch.choose("gen_facet", 6);
+        simple_type(&mut s, p, &format!("{cap}Code"), xsd_kind[i], ch.choose("gen_doc", 2) == 1);
         let _ = writeln!(s, "      <xs:complexType name=\"{cap}Info\">");
         let _ = writeln!(s, "        <xs:sequence>");
         let _ = writeln!(s, "          <xs:element name=\"{}\" type=\"{p}:{cap}Code\"/>", FIELD_WORDS[i]);
@@ -156,12 +198,32 @@ pub fn gen_wsdl_set_opt(ch: &mut Chooser, tag: u64, wild: bool) -> (InputSet, Ge
             files.push((fname.to_string(), sx.into_bytes()));
         }
     }
-    simple_type(&mut w, "tns", "TokenCode", ch.choose("gen_facet", 6), ch.choose("gen_doc", 2) == 1);
+    let token_kind = ch.choose("gen_facet", 6);
+    simple_type(&mut w, "tns", "TokenCode", token_kind, ch.choose("gen_doc", 2) == 1);
     simple_type(&mut w, "tns", "RegionCode", 2, false);
     let _ = writeln!(w, "      <xs:element name=\"Session\"><xs:complexType><xs:sequence><xs:element name=\"token\" type=\"tns:TokenCode\"/></xs:sequence></xs:complexType></xs:element>");
     let _ = writeln!(w, "      <xs:element name=\"Routing\"><xs:complexType><xs:sequence><xs:element name=\"region\" type=\"tns:RegionCode\" minOccurs=\"0\"/></xs:sequence></xs:complexType></xs:element>");
     let _ = writeln!(w, "      <xs:element name=\"Audit\"><xs:complexType><xs:sequence><xs:element name=\"actor\" type=\"xs:string\"/></xs:sequence></xs:complexType></xs:element>");
 
+    let net_mode = NET_MODE.with(std::cell::Cell::get);
+    let mut instances = serde_json::Map::new();
+    let mut env_open = format!("<soapenv:Envelope xmlns:soapenv=\"http://schemas.xmlsoap.org/soap/envelope/\" xmlns:tns=\"{tns}\"");
+    for i in 1..n_files {
+        let _ = write!(env_open, " xmlns:{}=\"{}\"", &NS_WORDS[i][..1], xsd_ns[i - 1]);
+    }
+    env_open.push('>');
+    // value of the imported complex type i (and, in a chain, its `next`): (xml, [(find-suffix, replace-suffix, depth)])
+    let info_value = |i: usize, bad: bool| -> String {
+        let p = &NS_WORDS[i][..1];
+        let (ok, no) = facet_values(xsd_kind[i]);
+        let mut v = format!("<{p}:{}>{}</{p}:{}>", FIELD_WORDS[i], if bad { no } else { ok }, FIELD_WORDS[i]);
+        if !fan && i + 1 < n_files {
+            let q = &NS_WORDS[i + 1][..1];
+            let (ok2, _) = facet_values(xsd_kind[i + 1]);
+            let _ = write!(v, "<{p}:next><{q}:{}>{ok2}</{q}:{}></{p}:next>", FIELD_WORDS[i + 1], FIELD_WORDS[i + 1]);
+        }
+        v
+    };
     let mut ops = Vec::new();
     let mut messages = String::new();
     let mut port = String::new();
@@ -170,7 +232,7 @@ pub fn gen_wsdl_set_opt(ch: &mut Chooser, tag: u64, wild: bool) -> (InputSet, Ge
         let name = format!("{}{}", OP_WORDS[o % OP_WORDS.len()], if o >= OP_WORDS.len() { "Again" } else { "" });
         let n_fields = 1 + ch.choose("gen_fields", 3) as usize;
         let n_headers = ch.choose("gen_headers", 4) as usize; // 0..3
-        let parts_attr = ch.choose("gen_parts_attr_absent", 2) == 0;
+        let parts_attr = ch.choose("gen_parts_attr_absent", 2) == 0 || (net_mode && n_headers > 0);
         let action = ch.choose("gen_soap_action", 2) == 1;
         let doc = ch.choose("gen_doc", 2) == 1;
         // request element
@@ -180,6 +242,8 @@ pub fn gen_wsdl_set_opt(ch: &mut Chooser, tag: u64, wild: bool) -> (InputSet, Ge
             let _ = writeln!(w, "          <xs:annotation><xs:documentation>Request of {name}\nline two\nline three</xs:documentation></xs:annotation>");
         }
         let _ = writeln!(w, "          <xs:sequence>");
+        let mut req_body = String::new();
+        let mut mutations: Vec<serde_json::Value> = Vec::new();
         for f in 0..n_fields {
             let fname = FIELD_WORDS[(o + f * 3) % FIELD_WORDS.len()];
             let t = ch.choose("gen_field_type", 12);
@@ -203,6 +267,28 @@ pub fn gen_wsdl_set_opt(ch: &mut Chooser, tag: u64, wild: bool) -> (InputSet, Ge
                 _ => " minOccurs=\"0\" maxOccurs=\"unbounded\"",
             };
             let _ = writeln!(w, "            <xs:element name=\"{fname}{f}\" type=\"{ty}\"{occ}/>");
+            // instance text for this member (two elements when it is repeated)
+            let tag = format!("tns:{fname}{f}");
+            let occ_label = if occ.is_empty() { "" } else if occ.contains("unbounded") { "/vec[0]" } else { "/option" };
+            let (good, bad, depth): (String, Option<String>, usize) = if ty == "tns:TokenCode" {
+                let (a, b) = facet_values(token_kind);
+                (a.to_string(), Some(b.to_string()), 1)
+            } else if ty == "tns:RegionCode" {
+                ("north".to_string(), Some("west".to_string()), 1)
+            } else if ty.ends_with("Info") {
+                let i = NS_WORDS.iter().position(|w2| w2[..1] == ty[..1]).unwrap_or(1);
+                (info_value(i, false), Some(info_value(i, true)), 2)
+            } else {
+                (builtin_sample(&ty).to_string(), None, 1)
+            };
+            let one = format!("<{tag}>{good}</{tag}>");
+            req_body.push_str(&one);
+            if occ.contains("unbounded") {
+                req_body.push_str(&one);
+            }
+            if let Some(b) = bad {
+                mutations.push(serde_json::json!({"name": format!("{fname}{f} violates its facet"), "position": format!("body/depth{depth}{occ_label}"), "find": one, "replace": format!("<{tag}>{b}</{tag}>")}));
+            }
         }
         let _ = writeln!(w, "          </xs:sequence>");
         let _ = writeln!(w, "        </xs:complexType>");
@@ -237,6 +323,24 @@ pub fn gen_wsdl_set_opt(ch: &mut Chooser, tag: u64, wild: bool) -> (InputSet, Ge
         let _ = writeln!(binding, "      </wsdl:input>");
         let _ = writeln!(binding, "      <wsdl:output><soap:body use=\"literal\"/></wsdl:output>");
         let _ = writeln!(binding, "    </wsdl:operation>");
+        // instance documents (element names are those of the schema; header elements carry the part name)
+        let (tok_ok, tok_bad) = facet_values(token_kind);
+        let hdr_xml = [format!("<tns:session><tns:token>{tok_ok}</tns:token></tns:session>"), "<tns:routing><tns:region>north</tns:region></tns:routing>".to_string(), "<tns:audit><tns:actor>me</tns:actor></tns:audit>".to_string()];
+        let mut header = String::new();
+        for h in hdr_xml.iter().take(n_headers) {
+            header.push_str(h);
+        }
+        if n_headers > 0 {
+            mutations.push(serde_json::json!({"name": "session token violates its facet", "position": "header/depth2", "find": format!("<tns:token>{tok_ok}</tns:token>"), "replace": format!("<tns:token>{tok_bad}</tns:token>")}));
+        }
+        if n_headers > 1 {
+            mutations.push(serde_json::json!({"name": "routing region not enumerated", "position": "header/depth2/option", "find": "<tns:region>north</tns:region>", "replace": "<tns:region>west</tns:region>"}));
+        }
+        let hdr = if n_headers > 0 { format!("<soapenv:Header>{header}</soapenv:Header>") } else { String::new() };
+        let request = format!("<?xml version=\"1.0\" encoding=\"UTF-8\"?>{env_open}{hdr}<soapenv:Body><tns:{name}Request>{req_body}</tns:{name}Request></soapenv:Body></soapenv:Envelope>");
+        let response = format!("<?xml version=\"1.0\" encoding=\"UTF-8\"?>{env_open}<soapenv:Body><tns:{name}Response><tns:result>done {o}</tns:result><tns:count>{}</tns:count></tns:{name}Response></soapenv:Body></soapenv:Envelope>", o + 3);
+        mutations.truncate(8);
+        instances.insert(name.clone(), serde_json::json!({"request": request, "response": response, "mutations": mutations}));
         ops.push(GenOp { name, has_header: n_headers > 0, parts_attr, n_parts: 1 + n_headers });
     }
     let _ = writeln!(w, "    </xs:schema>");
@@ -255,6 +359,6 @@ pub fn gen_wsdl_set_opt(ch: &mut Chooser, tag: u64, wild: bool) -> (InputSet, Ge
     files.insert(0, ("gen.wsdl".to_string(), w.into_bytes()));
     (
         InputSet { name: format!("generated-{tag}"), stage: None, files, start: "gen.wsdl".into() },
-        GenMeta { ops, n_files, location },
+        GenMeta { ops, n_files, location, instances: serde_json::Value::Object(instances) },
     )
 }
